@@ -68,13 +68,24 @@ func cmdMinimise(in, out, class string) int {
 	deadline := time.Now().Add(time.Duration(envInt("VERIF_MIN_S", 120)) * time.Second)
 	budget := envInt("VERIF_MIN_CANDIDATES", 300)
 	tries := 0
+	// C06 violations caused by Go map iteration order are probabilistic per execution: a candidate
+	// counts as failing when any of a few repeated executions shows the class.
+	repeats := 1
+	if s.Property == "C06" {
+		repeats = 4
+	}
 	fails := func(c *Schedule) *Violation {
 		tries++
-		r := execSchedule(p, c)
-		if r.Err != "" {
-			return nil
+		for i := 0; i < repeats; i++ {
+			r := execSchedule(p, c)
+			if r.Err != "" {
+				return nil
+			}
+			if v := firstOfClass(r, class); v != nil {
+				return v
+			}
 		}
-		return firstOfClass(r, class)
+		return nil
 	}
 	v := fails(s)
 	if v == nil {
@@ -184,8 +195,12 @@ func cmdMinimise(in, out, class string) int {
 	}
 	// final: execute once more to record expect + trace
 	final := cloneSchedule(cur)
-	r := runSchedule(final, nil, p.NewOracle(), nil)
-	fv := firstOfClass(r, class)
+	var fv *Violation
+	for i := 0; i < repeats*2 && fv == nil; i++ {
+		final = cloneSchedule(cur)
+		r := runSchedule(final, nil, p.NewOracle(), nil)
+		fv = firstOfClass(r, class)
+	}
 	if fv == nil {
 		fmt.Fprintln(os.Stderr, "minimise: final schedule lost the violation")
 		return 3
@@ -217,6 +232,13 @@ func cmdReplay(path string, verbose bool) int {
 	wantTrace := s.Trace
 	c := cloneSchedule(s)
 	r := runSchedule(c, nil, p.NewOracle(), nil)
+	if s.Property == "C06" && s.Expect != nil {
+		// divergence through map iteration order shows with probability < 1 per execution
+		for i := 0; i < 7 && firstOfClass(r, s.Expect.Class) == nil && r.Err == ""; i++ {
+			c = cloneSchedule(s)
+			r = runSchedule(c, nil, p.NewOracle(), nil)
+		}
+	}
 	out := realStdout
 	if r.Err != "" {
 		fmt.Fprintln(out, "replay: machinery error:", r.Err)
@@ -240,7 +262,7 @@ func cmdReplay(path string, verbose bool) int {
 		return 1
 	}
 	v := firstOfClass(r, s.Expect.Class)
-	if v == nil || v.Block != s.Expect.Block || v.Step != s.Expect.Step {
+	if v == nil || ((v.Block != s.Expect.Block || v.Step != s.Expect.Step) && s.Property != "C06" && s.Expect.Block >= 0) {
 		fmt.Fprintf(out, "replay: NOT REPRODUCED (expected %s at block %d step %d)\n", s.Expect.Class, s.Expect.Block, s.Expect.Step)
 		return 3
 	}
